@@ -266,19 +266,25 @@ pub(crate) fn decouple_v_models(
 }
 
 pub(crate) fn transform_text(text: &str) -> String {
-    let jsx_text_value = text.replace('\t', " ");
-    let mut jsx_text_lines = jsx_text_value.lines().enumerate().peekable();
+    // follow the JSX whitespace rule: lines are split on CRLF, LF or CR, tabs count as
+    // spaces, and only spaces adjacent to a line break are stripped
+    let jsx_text_value = text
+        .replace('\t', " ")
+        .replace("\r\n", "\n")
+        .replace('\r', "\n");
+    let mut jsx_text_lines = jsx_text_value.split('\n').enumerate().peekable();
 
     let mut lines = vec![];
     while let Some((index, line)) = jsx_text_lines.next() {
         let line = if index == 0 {
-            // first line
-            line.trim_end()
-        } else if jsx_text_lines.peek().is_none() {
-            // last line
-            line.trim_start()
+            line
         } else {
-            line.trim()
+            line.trim_start_matches(' ')
+        };
+        let line = if jsx_text_lines.peek().is_none() {
+            line
+        } else {
+            line.trim_end_matches(' ')
         };
         if !line.is_empty() {
             lines.push(line);
